@@ -433,7 +433,7 @@ ADVERSARIAL = ["{", "}", "{int}", "{0}", "{}", "%s", "%(x)s", "%", "${x}", "\\x4
                "Background:", "@tag", "# c", "#language: fr", "<a>", "<b>", "\\", "\\n", "\\|", "a.b", "a(b", "$1", "\\1", "[", "*", "+", "?",
                "\x85", " ", " ", "\x1c", "\x1d", "\x1e", "é", "\U0001F600", "日本", ":", "  ", "\t", "b",
                "\ufeff", "\u200b", "\u2060", "\u180e", "\ufeffx", "long tail of ordinary prose without any special character in it at all"]
-INDENTS = ["", "", " ", "  ", "    ", "\t", " \t", "      ", "\xa0", "　 ", "\x0b", "   "]
+INDENTS = ["", "", " ", "  ", "    ", "\t", " \t", "      ", "\xa0", "　 ", "\x0b", "   ", "\x0c", " \x1c", "\u2003"]
 TRAILS = ["", "", "", " ", "  ", "\t", " \xa0", "　"]
 SEPS = [" ", "", " ", "  ", "\t", " \xa0"]
 
